@@ -18,20 +18,49 @@ __CPROVER_assigns()
 {
 }
 
-/* the mixed-radix decomposition: with d = u / DAY, h = (u / HOUR) % 24, m = (u / MIN) % 60 (each computed from u itself)
- * the terms d*DAY, h*HOUR, m*MIN can be subtracted from u one after the other without wrap-around and leave less than a minute.
- * Proved with c18_lemma_nested_div bound to its contract. */
+/* congruence of % (trivial; stated as a lemma because the integer-arithmetic back end that proves the decomposition below
+ * does not derive it by itself) */
+void c18_lemma_cong24(uint64_t x, uint64_t y)
+__CPROVER_requires(x == y)
+__CPROVER_ensures(x % 24 == y % 24)
+__CPROVER_assigns()
+{
+}
+
+/* the mixed-radix decomposition.  d = u / DAY, h = (u / HOUR) % 24, m = (u / MIN) % 60, each computed from u itself:
+ * the terms d*DAY, h*HOUR, m*MIN can be subtracted from u one after the other without wrap-around and leave p < one minute;
+ * adding them up again (in this order, then p) never carries out of 64 bits.  The same for the two shorter forms
+ * (u < one day: h' = u / HOUR; u < one hour: m' = u / MIN).  Quotient magnitudes are stated too, so that the bit-level
+ * engines need not reason through a 64-bit divider for them.  Proved with the two lemmas above bound to their contracts. */
 #define C18_D(u) ((u) / C18_US_DAY)
 #define C18_H(u) (((u) / C18_US_HOUR) % 24)
 #define C18_M(u) (((u) / C18_US_MIN) % 60)
+#define C18_W1(u) (C18_D(u) * C18_US_DAY)
+#define C18_W2(u) (C18_H(u) * C18_US_HOUR)
+#define C18_W3(u) (C18_M(u) * C18_US_MIN)
+#define C18_P(u)  ((u) - C18_W1(u) - C18_W2(u) - C18_W3(u))
+#define C18_W2S(u) (((u) / C18_US_HOUR) * C18_US_HOUR)           /* u < DAY:  hours = u / HOUR */
+#define C18_PS(u)  ((u) - C18_W2S(u) - C18_W3(u))
+#define C18_W3S(u) (((u) / C18_US_MIN) * C18_US_MIN)             /* u < HOUR: minutes = u / MIN */
+#define C18_PSS(u) ((u) - C18_W3S(u))
 void c18_lemma_dhm(uint64_t u)
 __CPROVER_requires(1)
-__CPROVER_ensures(C18_D(u) * C18_US_DAY <= u)
-__CPROVER_ensures(C18_H(u) * C18_US_HOUR <= u - C18_D(u) * C18_US_DAY)
-__CPROVER_ensures(C18_M(u) * C18_US_MIN <= u - C18_D(u) * C18_US_DAY - C18_H(u) * C18_US_HOUR)
-__CPROVER_ensures(u - C18_D(u) * C18_US_DAY - C18_H(u) * C18_US_HOUR - C18_M(u) * C18_US_MIN < C18_US_MIN)
+/* three fields */
+__CPROVER_ensures(C18_W1(u) <= u && C18_W2(u) <= u - C18_W1(u) && C18_W3(u) <= u - C18_W1(u) - C18_W2(u) && C18_P(u) < C18_US_MIN)
+__CPROVER_ensures(C18_W1(u) + C18_W2(u) >= C18_W1(u) && C18_W1(u) + C18_W2(u) + C18_W3(u) >= C18_W1(u) + C18_W2(u) &&
+                  C18_W1(u) + C18_W2(u) + C18_W3(u) + C18_P(u) >= C18_W1(u) + C18_W2(u) + C18_W3(u))
+__CPROVER_ensures(C18_D(u) <= 213503982ull && C18_H(u) < 24 && C18_M(u) < 60 && (u >= C18_US_DAY ==> C18_D(u) >= 1))
+/* two fields */
+__CPROVER_ensures(u < C18_US_DAY ==> (C18_D(u) == 0 && u / C18_US_HOUR < 24 && C18_H(u) == u / C18_US_HOUR && C18_PS(u) < C18_US_MIN &&
+                                      C18_W2S(u) + C18_W3(u) >= C18_W2S(u) && C18_W2S(u) + C18_W3(u) + C18_PS(u) >= C18_W2S(u) + C18_W3(u)))
+__CPROVER_ensures(u >= C18_US_HOUR ==> u / C18_US_HOUR >= 1)
+/* one field */
+__CPROVER_ensures(u < C18_US_HOUR ==> (u / C18_US_MIN < 60 && C18_M(u) == u / C18_US_MIN && C18_H(u) == 0))
+__CPROVER_ensures(C18_PSS(u) < C18_US_MIN && C18_W3S(u) <= u && u / C18_US_MIN <= 307445734561ull && C18_W3S(u) + C18_PSS(u) >= C18_W3S(u))
+__CPROVER_ensures(u >= C18_US_MIN ==> u / C18_US_MIN >= 1)
 __CPROVER_assigns()
 {
   c18_lemma_nested_div(u);
+  c18_lemma_cong24(u / C18_US_HOUR, (u / C18_US_MIN) / 60);
 }
 #endif
